@@ -27,6 +27,7 @@ import (
 
 	"github.com/ipfs/boxo/blockservice"
 	"github.com/ipfs/boxo/exchange"
+	"github.com/fxamacker/cbor/v2"
 	blocks "github.com/ipfs/go-block-format"
 	"github.com/ipfs/go-cid"
 	"github.com/ipld/go-ipld-prime/datamodel"
@@ -367,8 +368,32 @@ func VerifH_C15_Ledger() {
 	for d := range e.version {
 		vObserve("version", e.version[d])
 		vObserve("delivered", e.delivered[d])
+		if e.delivered[d] != e.version[d] {
+			// "eventually" is bounded here by the number of rounds: a debt that is still recorded and due for another
+			// round is a bound of the check, a debt that nothing will retry any more is a violation
+			vBound(!e.stillOwedAndRetriable(d), "retry-still-pending-after-the-last-round")
+		}
 		vAssert(e.delivered[d] == e.version[d], "every-commit-delivered-once-the-peer-is-reachable")
 	}
+}
+
+// the ledger still records that document d is owed to the replicator and the retry loop will pick it up
+func (e *lEnv) stillOwedAndRetriable(d int) bool {
+	ps := datastore.PeerstoreFrom(e.db.store)
+	peerID := e.pid.String()
+	ok, err := ps.Has(e.ctx, keys.NewReplicatorRetryDocIDKey(peerID, lDocIDs[d]).Bytes())
+	if err != nil || !ok {
+		return false
+	}
+	b, err := ps.Get(e.ctx, keys.NewReplicatorRetryIDKey(peerID).Bytes())
+	if err != nil {
+		return false
+	}
+	r := retryInfo{}
+	if cbor.Unmarshal(b, &r) != nil {
+		return false
+	}
+	return !r.Retrying
 }
 
 // VerifH_C15_Reach — vacuity twin: a failed push followed by a retry round reaches the retried push
